@@ -8,13 +8,42 @@ package c08
 import (
 	"fmt"
 	"os"
+	"path/filepath"
 	"sort"
+	"strconv"
 	"testing"
 
 	"pgregory.net/rapid"
 
+	"verif/internal/ev"
 	"verif/internal/hx"
 )
+
+// TestGenSeeds (development-time tool) writes the native fuzz seeds.
+//
+//	cd /verif/harness && C08_GEN_SEEDS=1 go test -tags verif -count=1 -run '^TestGenSeeds$' ./c08
+func TestGenSeeds(t *testing.T) {
+	if os.Getenv("C08_GEN_SEEDS") == "" {
+		t.Skip("C08_GEN_SEEDS not set")
+	}
+	dir := "testdata/fuzz/FuzzRoundTrip"
+	os.RemoveAll(dir)
+	os.MkdirAll(dir, 0755)
+	seeds := append([]string{}, directed...)
+	for _, s := range loadCorpus(t) {
+		if len(s) <= maxFuzzInput {
+			seeds = append(seeds, s)
+		}
+	}
+	for _, s := range seeds {
+		name := fmt.Sprintf("seed-%016x", ev.Hash(s))
+		body := "go test fuzz v1\n[]byte(" + strconv.Quote(s) + ")\n"
+		if err := os.WriteFile(filepath.Join(dir, name), []byte(body), 0644); err != nil {
+			t.Fatal(err)
+		}
+	}
+	t.Logf("%d fuzz seeds", len(seeds))
+}
 
 func TestSurvey(t *testing.T) {
 	if os.Getenv("C08_SURVEY") == "" {
@@ -44,6 +73,21 @@ func TestSurvey(t *testing.T) {
 	}
 	for _, s := range directed {
 		run(Case{Kind: "directed", Src: s})
+	}
+	if os.Getenv("C08_SURVEY") == "noparse" {
+		seen := map[string]int{}
+		rapid.Check(t, func(rt *rapid.T) {
+			c := genProg(rt)
+			if _, err, _ := parse(c.Src); err != nil {
+				k := errType(err)
+				seen[k]++
+				if seen[k] <= 4 {
+					fmt.Printf("--- %v\n%s\n", err, c.Src[len(progPrelude):])
+				}
+			}
+		})
+		fmt.Println(seen)
+		return
 	}
 	if os.Getenv("C08_SURVEY") == "prog" {
 		rapid.Check(t, func(rt *rapid.T) {
